@@ -68,6 +68,8 @@ def main():
             bat = ['two_d']
         elif fn in ('MinimalInlineReader.read_line',):
             bat = []
+        elif fn == 'SgzReader.get_source_data_hash':
+            bat = ['source_hash']
         if bat:
             from oracle import batteries as B
             probs = []
